@@ -115,6 +115,7 @@ func (w *sqlWriter) leafLoop(ctx context.Context) error {
 		pruneTo := checkpoints.FindPrevious(startPruningVersion)
 		if pruneTo == -1 {
 			w.logger.Debug(fmt.Sprintf("skipping leaf prune: requested prune version %d < first checkpoint", startPruningVersion))
+			verifPruneIdle(w, "leaf")
 			return nil
 		}
 		pruneVersion = pruneTo
@@ -199,12 +200,14 @@ func (w *sqlWriter) leafLoop(ctx context.Context) error {
 				nextPruneVersion = 0
 			} else {
 				pruneVersion = 0
+				verifPruneIdle(w, "leaf")
 			}
 		}
 
 		return nil
 	}
 	saveLeaves := func(sig *saveSignal) {
+		verifSaveOrder(w, "leaf")
 		res := &saveResult{}
 		res.n, res.err = sig.batch.saveLeaves()
 		if sig.batch.isCheckpoint() {
@@ -212,6 +215,7 @@ func (w *sqlWriter) leafLoop(ctx context.Context) error {
 				w.logger.Error("failed leaf wal_checkpoint", "error", err)
 			}
 		}
+		verifSaveDone(w, "leaf")
 		w.leafResult <- res
 	}
 	for {
@@ -232,6 +236,9 @@ func (w *sqlWriter) leafLoop(ctx context.Context) error {
 			case <-ctx.Done():
 				return nil
 			default:
+				if !verifPruneGate(w, "leaf") {
+					continue
+				}
 				err = stepPruning()
 				if err != nil {
 					return fmt.Errorf("failed to step pruning; %w", err)
@@ -305,6 +312,7 @@ func (w *sqlWriter) treeLoop(ctx context.Context) error {
 		return nil
 	}
 	saveTree := func(sig *saveSignal) {
+		verifSaveOrder(w, "tree")
 		res := &saveResult{}
 		res.n, res.err = sig.batch.saveBranches()
 		if res.err == nil {
@@ -318,6 +326,7 @@ func (w *sqlWriter) treeLoop(ctx context.Context) error {
 				res.err = fmt.Errorf("failed tree checkpoint; %w", err)
 			}
 		}
+		verifSaveDone(w, "tree")
 		w.treeResult <- res
 	}
 	startPrune := func(startPruningVersion int64) error {
@@ -388,6 +397,7 @@ func (w *sqlWriter) treeLoop(ctx context.Context) error {
 				nextPruneVersion = 0
 			} else {
 				pruneVersion = 0
+				verifPruneIdle(w, "tree")
 			}
 		}
 
@@ -418,6 +428,9 @@ func (w *sqlWriter) treeLoop(ctx context.Context) error {
 				return nil
 			default:
 				// continue pruning if no signal
+				if !verifPruneGate(w, "tree") {
+					continue
+				}
 				err := stepPruning()
 				if err != nil {
 					return err
